@@ -321,6 +321,8 @@ def run(chk) -> None:
                 continue
             if not (c["yaml"] or c["json"] or c["pyproject"] or c["dash"] != "none" or c["cli"]):
                 continue
+            if o["extra"] and not (c["yaml"] or c["json"] or c["pyproject"] or c["dash"] != "none"):
+                continue      # the linter must be switched on by a carrier (dry is off by default): CLI-only is unobservable
             if quick and (ci + len(opt)) % 3 and not (c["cli"] and c["lang"]):
                 continue
             jobs.append({"opt": opt, "case": c, "group_level": ci % 4 == 0})
